@@ -33,7 +33,7 @@ META = {
     "prelude": False,
     "threads_copy": False,
     "min_distinct": {"quick": 20000, "thorough": 400000},
-    "shard_timeout": {"quick": 900, "thorough": 3600},
+    "shard_timeout": {"quick": 900, "thorough": 7200},
     "reach": False,
 }
 SIZES = {
@@ -287,6 +287,9 @@ def run_explore(shard, mon, S, p):
         for cls_, (name, a, b) in order:
             if cls_ and 0 not in spent:
                 spent[0] = mon.evaluations  # what the always-explored class used does not count against the shares
+            if not cls_ and mon.evaluations >= 0.45 * budget:
+                mon.tally("pairs_skipped_budget")  # even the always-first class may not take more than 45 % of a shard
+                continue
             if cls_ and mon.evaluations >= ceiling[cls_] + spent.get(0, 0):
                 mon.tally("pairs_skipped_budget")
                 continue
@@ -319,7 +322,9 @@ def run_explore(shard, mon, S, p):
             judge_run(base, {"first": 0, "preempt": []})
             mon.distinct((a, b, gran, 0, ()))
             cap = 200 if shard["tier"] == "quick" else 3000
-            focused = gran == "line" and shard["tier"] == "quick" and name.startswith(("natb", "nat:", "api:"))
+            # (quick tier: line granularity; thorough tier: the instruction-granularity shards - there the line shards
+            # take every line of these calls)
+            focused = name.startswith(("natb", "nat:", "api:")) and ((gran == "line" and shard["tier"] == "quick") or (gran == "instr" and shard["tier"] != "quick"))
             if focused:
                 # calls that reach a checksum algorithm through BBAN / IBAN objects (hundreds of lines each): in the
                 # quick tier every preemption point *inside the checksum modules* is taken, the others are left to the
